@@ -51,7 +51,7 @@ package store
 //@   ensures [nothing-new] {C04,C09} forall j int :: 0 <= j && j < len(idx.Entries) ==> exists i int :: 0 <= i && i < len(old(idx.Entries)) && old(idx.Entries)[i] == idx.Entries[j]
 
 //@ pred wfHeads(hs) :=
-//@      (forall i int :: 0 <= i && i < len(hs) ==> hs[i] != nil && len(hs[i].hash) == 20)
+//@      (forall i int :: 0 <= i && i < len(hs) ==> hs[i] != nil && len(hs[i].hash) >= 20)
 //@   && (forall i, j int :: 0 <= i && i < j && j < len(hs) ==> hs[i].Name < hs[j].Name)
 //@ pred wfRefs(r) := wfHeads(r.Heads)
 
@@ -102,7 +102,7 @@ package store
 //@   returns err
 //@   modifies Refs.Heads
 //@   requires wfRefs(r)
-//@   requires [hashlen] len(newBranchHash) == 20
+//@   requires [hashlen] len(newBranchHash) >= 20
 //@   ensures [dup-refused] {C10,C18} (exists i int :: 0 <= i && i < len(old(r.Heads)) && old(r.Heads)[i].Name == newBranchName) ==> err != nil && seqEq(r.Heads, old(r.Heads))
 //@   ensures [wf] {C10} err == nil ==> wfRefs(r)
 //@   ensures [added] {C10} err == nil ==> exists k int :: 0 <= k && k < len(r.Heads) && r.Heads[k].Name == newBranchName && string(r.Heads[k].hash) == string(newBranchHash) && fresh(r.Heads[k])
@@ -134,7 +134,7 @@ package store
 //@   returns err
 //@   modifies branch.hash
 //@   requires wfRefs(r)
-//@   requires [hashlen] len(newHash) == 20
+//@   requires [hashlen] len(newHash) >= 20
 //@   ensures [unknown-refused] {C10,C18} (forall i int :: 0 <= i && i < len(r.Heads) ==> r.Heads[i].Name != branchName) ==> err != nil && (forall i int :: 0 <= i && i < len(r.Heads) ==> string(r.Heads[i].hash) == string(old(r.Heads[i].hash)))
 //@   ensures [wf] {C10} wfRefs(r)
 //@   ensures [updated] {C10,C08,C02} err == nil ==> exists k int :: 0 <= k && k < len(r.Heads) && r.Heads[k].Name == branchName && string(r.Heads[k].hash) == string(newHash)
@@ -151,3 +151,47 @@ package store
 //@ func Refs.ListBranches
 //@   pure
 //@   requires wfRefs(r)
+
+//@ pred wfReflog(r) := forall i int :: 0 <= i && i < len(r.records) ==> r.records[i] != nil && (len(r.records[i].Hash) == 0 || len(r.records[i].Hash) >= 20)
+
+//@ func Reflog.GetRecord
+//@   returns rec, err
+//@   pure
+//@   requires wfReflog(r)
+//@   requires [nonneg] {C08} num >= 0
+//@   ensures [index] {C08,C11} num < len(r.records) ==> err == nil && rec != nil && rec == r.records[len(r.records) - 1 - num]
+//@   ensures [range] {C08,C11,C18} num >= len(r.records) ==> err != nil && rec == nil
+
+//@ func Reflog.Show
+//@   pure
+//@   requires wfReflog(r)
+
+//@ pred confHas(m, i, k) := mapHas(m, i) && mapHas(mapGet(m, i), k)
+//@ pred confGet(m, i, k) := mapGet(mapGet(m, i), k)
+//@ pred wfSections(m) := m != nil && (forall i string :: mapHas(m, i) ==> mapGet(m, i) != nil) && (forall i, j string :: mapHas(m, i) && mapHas(m, j) && i != j ==> mapGet(m, i) != mapGet(m, j))
+//@ pred wfConfig(c) := wfSections(c.local) && wfSections(c.global) && c.local != c.global && (forall i, j string :: mapHas(c.local, i) && mapHas(c.global, j) ==> mapGet(c.local, i) != mapGet(c.global, j))
+
+//@ func Config.GetUserName
+//@   returns name
+//@   pure
+//@   ensures [precedence] {C20,C02} name == ite(confHas(c.local, "user", "name"), confGet(c.local, "user", "name"), ite(confHas(c.global, "user", "name"), confGet(c.global, "user", "name"), ""))
+
+//@ func Config.GetEmail
+//@   returns email
+//@   pure
+//@   ensures [precedence] {C20,C02} email == ite(confHas(c.local, "user", "email"), confGet(c.local, "user", "email"), ite(confHas(c.global, "user", "email"), confGet(c.global, "user", "email"), ""))
+
+//@ func Config.IsUserSet
+//@   returns ok
+//@   pure
+//@   ensures [iff] {C20} ok <==> (confHas(c.local, "user", "name") || confHas(c.global, "user", "name")) && (confHas(c.local, "user", "email") || confHas(c.global, "user", "email"))
+
+//@ func Config.Add
+//@   modifies maps
+//@   requires wfConfig(c)
+//@   ensures [wf] {C20} wfConfig(c)
+//@   ensures [set] {C20} isGlobal ==> confHas(c.global, ident, key) && confGet(c.global, ident, key) == value
+//@   ensures [set-local] {C20} !isGlobal ==> confHas(c.local, ident, key) && confGet(c.local, ident, key) == value
+//@   ensures [frame-global] {C20} forall i, k string :: !(isGlobal && i == ident && k == key) ==> (confHas(c.global, i, k) <==> old(confHas(c.global, i, k))) && (confHas(c.global, i, k) ==> confGet(c.global, i, k) == old(confGet(c.global, i, k)))
+//@   ensures [frame-local] {C20} forall i, k string :: !(!isGlobal && i == ident && k == key) ==> (confHas(c.local, i, k) <==> old(confHas(c.local, i, k))) && (confHas(c.local, i, k) ==> confGet(c.local, i, k) == old(confGet(c.local, i, k)))
+//@   ensures [sections] {C20} forall i string :: i != ident ==> (mapHas(c.local, i) <==> old(mapHas(c.local, i))) && (mapHas(c.global, i) <==> old(mapHas(c.global, i)))
